@@ -57,7 +57,7 @@ func main() {
 	c.Assume("process-kill fault model for the crash part; the sequence file is a MAP_SHARED mapping and survives")
 	raceBin := os.Getenv("VERIF_RACE_BIN")
 	var jobs []job
-	nConc := c.Pick(12, 400)
+	nConc := c.Pick(24, 480)
 	for i := 0; i < nConc; i++ {
 		jobs = append(jobs, job{"conc", i, raceBin != "" && i%2 == 1})
 	}
